@@ -15,9 +15,9 @@ import (
 	"sync/atomic"
 	"time"
 
-	bbolt "go.etcd.io/bbolt"
 	"go.dedis.ch/onet/v3"
 	"go.dedis.ch/onet/v3/network"
+	bbolt "go.etcd.io/bbolt"
 
 	"verifharness/lib"
 )
@@ -38,13 +38,13 @@ type Go struct {
 
 type srv struct {
 	Servers    int   `json:"servers"`
-	Runs       int   `json:"runs"`        // instances rooted on the target
-	PerChild   int   `json:"per_child"`   // pings each child sends per run
-	Closes     int   `json:"closes"`      // 1-3 calls of Server.Close
-	Concurrent bool  `json:"concurrent"`  // the further calls start together with the first
-	Traffic    bool  `json:"traffic"`     // children keep sending while the target closes
-	RaceSend   bool  `json:"race_send"`   // a root instance on the target sends to its children while closing
-	Script     []mac `json:"script"`      // finish j | timerfire j | timerrelease j | close | newinstance
+	Runs       int   `json:"runs"`       // instances rooted on the target
+	PerChild   int   `json:"per_child"`  // pings each child sends per run
+	Closes     int   `json:"closes"`     // 1-3 calls of Server.Close
+	Concurrent bool  `json:"concurrent"` // the further calls start together with the first
+	Traffic    bool  `json:"traffic"`    // children keep sending while the target closes
+	RaceSend   bool  `json:"race_send"`  // a root instance on the target sends to its children while closing
+	Script     []mac `json:"script"`     // finish j | timerfire j | timerrelease j | close | newinstance
 }
 
 type sproto struct {
@@ -156,22 +156,32 @@ type sobsJSON struct {
 	Err          string   `json:"scenario_error,omitempty"`
 }
 
-// waitStack polls until some goroutine's stack contains all the given substrings.
-func waitStack(d time.Duration, subs ...string) bool {
-	deadline := time.Now().Add(d)
+// countStack counts the goroutines whose stack contains all the given substrings.
+func countStack(subs ...string) int {
 	buf := make([]byte, 1<<23)
+	n := runtime.Stack(buf, true)
+	cnt := 0
+	for _, b := range strings.Split(string(buf[:n]), "\n\n") {
+		ok := true
+		for _, s := range subs {
+			if !strings.Contains(b, s) {
+				ok = false
+			}
+		}
+		if ok {
+			cnt++
+		}
+	}
+	return cnt
+}
+
+// waitStack polls until more than before goroutines have all the substrings in their stack
+// (goroutines stuck since an earlier case of this process must not count).
+func waitStack(d time.Duration, before int, subs ...string) bool {
+	deadline := time.Now().Add(d)
 	for time.Now().Before(deadline) {
-		n := runtime.Stack(buf, true)
-		for _, b := range strings.Split(string(buf[:n]), "\n\n") {
-			ok := true
-			for _, s := range subs {
-				if !strings.Contains(b, s) {
-					ok = false
-				}
-			}
-			if ok {
-				return true
-			}
+		if countStack(subs...) > before {
+			return true
 		}
 		time.Sleep(2 * time.Millisecond)
 	}
@@ -338,6 +348,7 @@ func runServer(in input) lib.Case {
 					return "ok"
 				})
 			}
+			inStore := countStack("(*treeStorage).Close", "sync.(*WaitGroup).Wait")
 			firstClose = startOp("close", doClose)
 			if sv.Concurrent {
 				for k := 1; k < sv.Closes; k++ {
@@ -347,7 +358,7 @@ func runServer(in input) lib.Case {
 			if timerHeld {
 				// the forced interleaving: Close must be inside treeStorage.Close, waiting for the timer
 				// goroutine, before that goroutine is released
-				if !waitStack(10*time.Second, "(*treeStorage).Close", "sync.(*WaitGroup).Wait") {
+				if !waitStack(10*time.Second, inStore, "(*treeStorage).Close", "sync.(*WaitGroup).Wait") {
 					scenarioErr = fmt.Sprintf("macro %d: Close never reached the tree store", i)
 				}
 			} else {
